@@ -2203,8 +2203,16 @@ fn analyze_assignment_steps(
 {
 	let mut steps = Vec::new();
 	let mut current_type = base_type;
+	// When a step does not fit the type before it (which is reported where
+	// that type is known), the steps after it are left as they are.
+	let mut is_type_known = true;
 	for step in previous_steps.into_iter()
 	{
+		if !is_type_known
+		{
+			steps.push(step);
+			continue;
+		}
 		let step = match step
 		{
 			ReferenceStep::Element {
@@ -2265,7 +2273,7 @@ fn analyze_assignment_steps(
 					{
 						current_type = element_type;
 					}
-					None => unreachable!(),
+					None => is_type_known = false,
 				}
 				ReferenceStep::Element {
 					argument,
@@ -2299,8 +2307,8 @@ fn analyze_assignment_steps(
 					{
 						current_type = member_type;
 					}
-					Some(Err(_poison)) => unreachable!(),
-					None => unreachable!(),
+					Some(Err(_poison)) => is_type_known = false,
+					None => is_type_known = false,
 				}
 				ReferenceStep::Member { member, offset }
 			}
@@ -2311,7 +2319,11 @@ fn analyze_assignment_steps(
 					current_type = *deref_type;
 					step
 				}
-				_ => unreachable!(),
+				_ =>
+				{
+					is_type_known = false;
+					step
+				}
 			},
 			ReferenceStep::Autoview => match current_type
 			{
@@ -2320,7 +2332,11 @@ fn analyze_assignment_steps(
 					current_type = *deref_type;
 					step
 				}
-				_ => unreachable!(),
+				_ =>
+				{
+					is_type_known = false;
+					step
+				}
 			},
 			ReferenceStep::Autodeslice { ref offset } => match offset
 			{
@@ -2334,6 +2350,10 @@ fn analyze_assignment_steps(
 			},
 		};
 		steps.push(step);
+	}
+	if !is_type_known
+	{
+		return (steps, 0);
 	}
 	let ad = address_depth as usize;
 	let pd = current_type.pointer_depth();
